@@ -1193,11 +1193,11 @@ func (c *c16) partDup() bool {
 // explicitly (i.__len__()).
 type c16SpName struct {
 	name     string
-	sig      string                  // parameter list of the method
-	body     func(v string) string   // method body delivering the value v
-	implicit func(o string) string   // expression that makes the interpreter look the method up
-	explicit func(o string) string   // the same call spelled out ("" = not compared)
-	absent   string                  // expected log entry of the implicit form when no class defines it
+	sig      string                // parameter list of the method
+	body     func(v string) string // method body delivering the value v
+	implicit func(o string) string // expression that makes the interpreter look the method up
+	explicit func(o string) string // the same call spelled out ("" = not compared)
+	absent   string                // expected log entry of the implicit form when no class defines it
 }
 
 var c16SpNames = []c16SpName{
